@@ -79,6 +79,7 @@ void h_ttl_range(void)
   __CPROVER_assume(IMPL(st._expiry.has, st._kv.has));                      /* expiry metadata only for present keys */ \
   bool kv_has0 = st._kv.has; iora_vec kv_val0 = st._kv.val; bool ex_has0 = st._expiry.has; iora_tp ex_exp0 = st._expiry.val.expiry; bool ca_has0 = st._cache.has; \
   iora_skey key; key.n = nondet_size_t(); key.is_g = nondet_bool(); key.p = NULL; \
+  st._mutex.held = false;                                                     /* the calling thread does not hold the store mutex */ \
   G_now_last = nondet_i64(); __CPROVER_assume(G_now_last >= 0); G_now_calls = 0; G_uc_called = false; iora_exc = EXC_NONE; IORA_TRUE = 1;
 #define VISIBLE_AT(t) (kv_has0 && (!ex_has0 || ex_exp0 > (t)))
 
